@@ -68,6 +68,8 @@ static void runPlanInChild(const char* text, size_t len) {
 		if (simReadWindow()) ctx.fault("F-CHUNK");
 		simReuseObject() = jbool(plan, "reuse_object", false);
 		simPipeSaves() = jbool(plan, "pipe_saves", false);
+		simPipeAlternate() = jbool(plan, "pipe_alternate", false);
+		if (simPipeSaves() && simPipeAlternate()) ctx.probe("saves_alternate_pipe_and_file");
 		simSaveOptions() = jint(plan, "save_options", 0);
 		if (simSaveOptions()) ctx.probe(simSaveOptions() == 1 ? "saves_optimize_only" : "saves_sort_only");
 		if (simPipeSaves()) ctx.fault("F-NOSEEK");
